@@ -131,8 +131,37 @@ def replay_hist(ips, bases, c):
         return [("infinite_screen:shift-by-one-row", dict(hist=c["hist"], got=got, expected=c["exposed"]))]
     d = proj.draws(obj)
     if d != c["pos"]:
-        return [("infinite_screen:stream-position", dict(hist=c["hist"], got=d, expected=c["pos"]))]
+        # how many deviates an add_row consumes, and when, is the transcribed algorithm's business (Impl), not the property's
+        return [("drift:infinite_screen:stream-position", dict(hist=c["hist"], got=d, expected=c["pos"]))]
     return []
+
+
+def fresh_innovations(ips, variant, req, steps, seed):
+    """long history on a small screen; innovation of step t = new row - A (stencil - ref) - ref, with A read from the object
+    (attribution only: a wrong A cannot make two innovations coincide).  Returns the first exact repeat, if any."""
+    obj = build(ips, variant, req, 1, PARAMS[0], seed)
+    if not hasattr(obj, "A_mat") or not hasattr(obj, "stencil_coords"):
+        return dict(variant=variant, req=req, steps=0, skipped="no A_mat / stencil_coords attributes")
+    A = np.asarray(obj.A_mat, float)
+    sc = np.asarray(obj.stencil_coords)
+    refc = getattr(obj, "reference_coord", None) if variant == "fried" else None
+    E = np.zeros((steps, A.shape[0]))
+    for t in range(steps):
+        w = Projector.work(obj)
+        st = w[(sc[:, 0], sc[:, 1])]
+        ref = w[refc] if refc is not None else 0.0
+        obj.add_row()
+        E[t] = Projector.work(obj)[0] - (A.dot(st - ref) + ref)
+    scale = np.abs(E).max() or 1.0
+    order = np.lexsort(E.T[::-1])
+    Es = E[order]
+    close = np.abs(Es[1:] - Es[:-1]).max(1) < 1e-9 * scale
+    out = dict(variant=variant, req=req, steps=steps, innovation_scale=float(scale))
+    if close.any():
+        k = int(np.argmax(close))
+        a, b = sorted((int(order[k]), int(order[k + 1])))
+        out["repeat"] = dict(step=b, equals_step=a, lag=b - a)
+    return out
 
 
 def record_traces(ips, rng, n_traces, sizes, factors, n_long=4):
@@ -164,6 +193,16 @@ def record_traces(ips, rng, n_traces, sizes, factors, n_long=4):
     return traces, skipped
 
 
+def normalised_draws(t):
+    pos = 2 * t["slen"] * t["slen"]
+    evs = []
+    for e in t["events"]:
+        if e["op"] == "add_row":
+            pos += t["nx"]
+        evs.append(dict(e, draws=pos))
+    return dict(t, events=evs)
+
+
 def rerecord(ips, t):
     """execute the operations of a stored trace again on the current code (same class, parameters and seed)"""
     obj = build(ips, t["variant"], t["req"], t["f"], tuple(t.get("params", PARAMS[0])), t["seed"])
@@ -182,8 +221,7 @@ def validate_traces(run, traces, label, require=("TraceAddRow", "TraceRead", "Tr
         path = os.path.join(tmp, "traces.json")
         with open(path, "w") as fh:
             json.dump(traces, fh)
-        r = run.tlc("InfScreenTrace", "InfScreenTrace.cfg", label=label, env={"TRACE_FILE": path}, workers=4,
-                    require_actions=require, timeout=3000)
+        r = run.tlc("InfScreenTrace", "InfScreenTrace.cfg", label=label, env={"TRACE_FILE": path}, workers=4, timeout=3000)
     finally:
         shutil.rmtree(tmp, ignore_errors=True)
     reached = {}
@@ -195,6 +233,11 @@ def validate_traces(run, traces, label, require=("TraceAddRow", "TraceRead", "Tr
         want = len(t["events"]) + 1
         if reached.get(i, 0) != want:
             rejected.append((i, reached.get(i, 1)))
+    # vacuity is a machinery matter only when nothing was rejected (if every trace dies at its first event the rejections ARE the result)
+    if not rejected:
+        for a in require:
+            if r.coverage.get(a, (0, 0))[1] == 0:
+                raise core.MachineryError("vacuity: action %s of InfScreenTrace never taken in %s" % (a, label))
     return r, rejected
 
 
@@ -231,7 +274,10 @@ def run(run):
                 continue
             bases[key] = (obj, proj)
         for k2, detail in replay_hist(ips, bases, c):
-            run.violation(k2, detail, c)
+            if k2.startswith("drift:"):
+                run.drift(k2[6:], detail)
+            else:
+                run.violation(k2, detail, c)
         n += 1
         if n in (300, 9000):
             run.sample(c, limit=3)
@@ -246,6 +292,16 @@ def run(run):
         bad = [t for t in traces][:1]
         run.violation("infinite_screen:trace-violates-" + rt.violated, dict(note="a recorded execution violates the model property"),
                       dict(kind="trace", trace=bad[0] if bad else None))
+    if rejected:
+        # is the rejection only about the stream position after construction / add_row (Impl detail)?  Validate the rejected
+        # traces again with the model's own positions written in; reads keep their rng_same observation.
+        sub = [normalised_draws(traces[tid - 1]) for tid, _ in rejected]
+        _, rej2 = validate_traces(run, sub, "InfScreenTrace/rejected-with-model-stream-positions", require=())
+        still = {rejected[i - 1][0] for i, _ in rej2}
+        for tid, l in rejected:
+            if tid not in still:
+                run.drift("infinite_screen:stream-position-in-trace", dict(trace=tid, position=l, variant=traces[tid - 1]["variant"]))
+        rejected = [(tid, l) for tid, l in rejected if tid in still]
     for tid, l in rejected[:5]:
         t = traces[tid - 1]
         ev = t["events"][l - 1] if l - 1 < len(t["events"]) else None
@@ -260,12 +316,26 @@ def run(run):
     from harness.checks import c04
     stab = []
     for nn, ncol in ((4, 2), (6, 2), (5, 3)) if quick else ((4, 2), (6, 2), (5, 3), (8, 2), (12, 2), (9, 4)):
-        for prm in (PARAMS[0], (PARAMS[0][0], PARAMS[0][1] * 2.5, PARAMS[0][2])):       # the second one: same geometry, another r0
+        # the second one: same geometry, another r0; the last two: very weak turbulence (pixel / r0 = 1e-5, 1e-6)
+        for prm in (PARAMS[0], (PARAMS[0][0], PARAMS[0][1] * 2.5, PARAMS[0][2]), (0.5, 5.0e4, 20.0), (0.01, 1.0e4, 10.0)):
             rho, res = c04.vk_stability(ips, nn, ncol, prm)
+            if rho is None:
+                run.unrunnable.append(dict(stability=[nn, ncol], why="add_row does not draw its innovation inside the call"))
+                continue
             stab.append(dict(n=nn, ncol=ncol, params=list(prm), spectral_radius=rho, stationarity_residual=res))
             if not (rho < 1 - 1e-9) or res > 1e-4:
                 run.violation("infinite_screen:vk-recursion-not-stable-at-von-karman-covariance", stab[-1],
                               dict(kind="stability", n=nn, ncol=ncol))
+    # ---- "stay there however many rows are added": the innovation of every step is NEW noise.  Over a long history the
+    #      innovations e_t = row_t - (deterministic part) of a linear-Gaussian recursion are almost surely pairwise different;
+    #      an exact repeat means deviates are being reused (a finite pool, a block that is never refilled)
+    fresh = []
+    for variant, req in (("vk", 3), ("fried", 2), ("vk", 2)):
+        info = fresh_innovations(ips, variant, req, 2600 if quick else 40000, 97 + run.seed % 1000)
+        fresh.append(info)
+        if info.get("repeat"):
+            run.violation("infinite_screen:innovation-repeats-earlier-step", info, dict(kind="fresh", variant=variant, req=req, steps=info["steps"]))
+    run.aux["fresh_innovation_runs"] = fresh
     run.aux["vk_stability"] = stab
     run.aux.update(mode_a_histories=n, mode_b_traces=len(traces), mode_b_rejected=len(rejected),
                    mode_b_events=sum(len(t["events"]) for t in traces), constructions_skipped=skipped)
@@ -283,8 +353,13 @@ def replay(run, case):
     if case.get("kind") == "stability":
         from harness.checks import c04
         rho, res = c04.vk_stability(ips, case["n"], case["ncol"], PARAMS[0])
-        if not (rho < 1 - 1e-9) or res > 1e-4:
+        if rho is not None and (not (rho < 1 - 1e-9) or res > 1e-4):
             run.violation("infinite_screen:vk-recursion-not-stable-at-von-karman-covariance", dict(rho=rho, res=res), case)
+        return
+    if case.get("kind") == "fresh":
+        info = fresh_innovations(ips, case["variant"], case["req"], case["steps"], 97 + run.seed % 1000)
+        if info.get("repeat"):
+            run.violation("infinite_screen:innovation-repeats-earlier-step", info, case)
         return
     if case.get("kind") == "trace":
         _, rejected = validate_traces(run, [rerecord(ips, case["trace"])], "InfScreenTrace/replay", require=())
@@ -295,4 +370,5 @@ def replay(run, case):
     obj = build(ips, case["variant"], case["req"], case["f"], PARAMS[0], seed)
     bases = {(case["variant"], case["req"], case["f"]): (obj, Projector(obj, seed))}
     for k2, detail in replay_hist(ips, bases, case):
-        run.violation(k2, detail, case)
+        if not k2.startswith("drift:"):
+            run.violation(k2, detail, case)
